@@ -59,6 +59,8 @@ pub open spec fn occurs_at(pat: Seq<char>, s: Seq<char>, k: int) -> bool { 0 <= 
 impl Str {
     pub uninterp spec fn view(&self) -> Seq<char>;
     #[verifier::external_body]
+    pub fn new() -> (r: Str) ensures r@ == Seq::<char>::empty() { unimplemented!() }
+    #[verifier::external_body]
     pub fn len(&self) -> (n: usize) ensures n == byte_len(self@) { unimplemented!() }
     // R4: `self.chars().count()`
     // str::trim_end_matches(c): every trailing repetition of the character is removed
